@@ -117,7 +117,7 @@ def backward(t):
     for leaf in _leaves():
         if not leaf.requires_grad:
             continue
-        g = np.empty(leaf.a.shape, dtype=object)
+        g = np.empty_like(leaf.a)          # torch creates the gradient with the strides of a (dense) leaf: views of the gradient behave like views of the leaf
         it = np.ndindex(*leaf.a.shape) if leaf.a.ndim else [()]
         for ix in it:
             s = _is_plain_symbol(leaf.a[ix])
@@ -128,7 +128,9 @@ def backward(t):
         if leaf.grad is None:
             leaf.grad = st.Tensor(g, leaf.dtype)
         else:
-            leaf.grad = st.Tensor(leaf.grad.a + g, leaf.dtype)
+            acc = np.empty_like(leaf.a)
+            acc[...] = leaf.grad.a + g
+            leaf.grad = st.Tensor(acc, leaf.dtype)
 
 
 def grad_of(expr, leaf):
